@@ -49,7 +49,7 @@ DER_SEEDS = [
 SAN_ENV = {'ASAN_OPTIONS': 'detect_leaks=0:allocator_may_return_null=1:detect_stack_use_after_return=0:symbolize=1',
            'UBSAN_OPTIONS': 'print_stacktrace=1:symbolize=1'}
 CRASH_PREFIXES = ('crash-', 'timeout-', 'oom-')
-SHARDS = {'objectfile': 3, 'tokenobject': 2, 'config': 2, 'der': 1}      # processes per target; 8 in total
+SHARDS = {'objectfile': 3, 'tokenobject': 2, 'config': 1, 'der': 2}      # processes per target; 8 in total
 MAX_RESTARTS = 3          # after a crash the target is restarted on the remaining runs, at most this often
 
 def sh(cmd, **kw): return subprocess.run(cmd, stdout=subprocess.PIPE, stderr=subprocess.STDOUT, text=True, **kw)
@@ -64,10 +64,10 @@ def _read(p):
 def _compiler_id():
     r = sh([CLANGXX, '--version']); return r.stdout.splitlines()[0] if r.returncode == 0 and r.stdout else None
 
-def build_harnesses(plain, jobs=BUILD_JOBS):
+def build_harnesses(plain, jobs=BUILD_JOBS, out=None):
     """plain = paths of the 'plain' config from tools/build.py (its 'src' is the content mirror, 'builddir' holds config.h).
     Returns ({target: exe}, {target: why it could not be built}, seconds spent compiling)."""
-    t0 = time.time(); cache = os.path.dirname(plain['builddir']); out = f'{cache}/fuzz'; lib = f"{plain['src']}/src/lib"
+    t0 = time.time(); out = out or f"{os.path.dirname(plain['builddir'])}/fuzz"; lib = f"{plain['src']}/src/lib"
     os.makedirs(f'{out}/obj', exist_ok=True); exes = {}; errors = {}
     cid = _compiler_id()
     if cid is None: return {}, {t: f'{CLANGXX} is not usable' for t in TARGETS}, 0.0
@@ -144,7 +144,10 @@ def signature(report):
     m = re.search(r'FUZZ-UBSAN-FATAL: ([\w-]+)', t)
     if m: kind = 'ubsan:' + m.group(1); t = t[m.start():]
     m = re.search(r'ERROR: AddressSanitizer: ([\w-]+)', t) if kind is None else None
-    if m: kind = 'asan:' + m.group(1); t = t[m.start():]
+    if m:
+        kind = 'asan:' + m.group(1); t = t[m.start():]
+        if t.startswith('ERROR: AddressSanitizer: allocator is out of memory'): kind = 'asan:out-of-memory'                      # operator new that cannot be served: bad_alloc -> exit(5) without ASan
+        elif t.startswith('ERROR: AddressSanitizer: requested allocation size'): kind = 'asan:allocation-size-too-big'
     if kind is None:
         m = re.search(r'ERROR: libFuzzer: ([^\n(]+)', t)
         if m:
@@ -207,11 +210,12 @@ def reproduce(exe, artifact, tdir):
     except subprocess.TimeoutExpired: return None
     return r.stderr.decode('latin-1') if r.returncode != 0 else None
 
-def run_fuzz_lane(ctx, runs_per_target):
-    """Builds (or reuses) the harnesses, runs every target for `runs_per_target` executions and reports through ctx."""
-    try: plain = ctx.need('plain')['plain']          # mirrors the current working tree of $VERIF_REPO (under the cache lock) and provides config.h
+def run_fuzz_lane(ctx, runs_per_target, plain=None, out=None):
+    """Builds (or reuses) the harnesses, runs every target for `runs_per_target` executions and reports through ctx.
+    (plain / out: only for experiments - sources and config.h from somewhere else than the cache of tools/build.py)"""
+    try: plain = plain or ctx.need('plain')['plain']          # mirrors the current working tree of $VERIF_REPO (under the cache lock) and provides config.h
     except Exception as e: ctx.inconc('libfuzzer lane: the source mirror / config.h could not be prepared: %s' % (str(e)[-400:],)); return
-    exes, errors, build_s = build_harnesses(plain)
+    exes, errors, build_s = build_harnesses(plain, out=out)
     for t, why in sorted(errors.items()): ctx.inconc(f'libfuzzer lane: harness {t} could not be built: {why[-500:]}')
     root = ctx.dir('libfuzzer'); seeds = make_seeds(root); stats = {}; state = {}
     # the slower targets are split into independent shards (own libFuzzer seed, own corpus directory, same seed corpus) that share the
@@ -279,18 +283,20 @@ def _cli():
     if not a or a[0] not in ('build', 'run', 'replay'): raise SystemExit(__doc__)
     ctx = Ctx('C17', 'thorough', int(a[2]) if a[0] == 'run' and len(a) > 2 else 1)
     try:
-        plain = ctx.need('plain')['plain']
+        # FUZZLANE_SRC=<tree with src/lib> FUZZLANE_OUT=<dir>: build from a scratch copy of the repository (config.h still from the cache)
+        plain = ctx.need('plain')['plain']; out = os.environ.get('FUZZLANE_OUT')
+        if os.environ.get('FUZZLANE_SRC'): plain = dict(plain, src=os.environ['FUZZLANE_SRC']); out = out or f'{ctx.scratch}/fuzz-build'
         if a[0] == 'build':
-            exes, errors, s = build_harnesses(plain); print(json.dumps({'built': exes, 'errors': errors, 'build_s': s}, indent=1)); return 1 if errors else 0
+            exes, errors, s = build_harnesses(plain, out=out); print(json.dumps({'built': exes, 'errors': errors, 'build_s': s}, indent=1)); return 1 if errors else 0
         if a[0] == 'replay':
-            w = json.load(open(a[1]))['witness']; exes, errors, _ = build_harnesses(plain); t = w['target']
+            w = json.load(open(a[1]))['witness']; exes, errors, _ = build_harnesses(plain, out=out); t = w['target']
             if t not in exes: print('cannot build', t, errors.get(t)); return 2
             d = ctx.dir('replay'); p = f'{d}/artifact'; open(p, 'wb').write(bytes.fromhex(w.get('artifact_full_hex') or w['artifact_hex']))
             rep = reproduce(exes[t], p, d)
             if rep is None: print('not reproduced'); return 0
             print(report_head(rep, 6000)); print('REPLAY reproduced:', f'libfuzzer:{t}|file-content|{signature(rep)}'); return 1
         os.environ['VERIF_REPLAY_DIR'] = os.environ.get('VERIF_REPLAY_DIR', ctx.dir('replays'))      # a run by hand leaves nothing in the repository
-        t0 = time.time(); stats = run_fuzz_lane(ctx, int(a[1]))
+        t0 = time.time(); stats = run_fuzz_lane(ctx, int(a[1]), plain=plain, out=out)
         print(json.dumps({'stats': stats, 'build_s': ctx.extra.get('libfuzzer_build_s'), 'wall_s': round(time.time() - t0, 1), 'evaluations': ctx.evaluations,
                           'violations': {k: v[0] for k, v in ctx.viol.items()}, 'known': sorted(ctx.known), 'inconclusive': ctx.inconclusive}, indent=1))
         for k, (what, path) in ctx.viol.items(): print(json.load(open(path))['witness']['report_head'])
